@@ -324,9 +324,48 @@ def t13_zero(run, fx):
                  b.loc(b.term(bad[0])) if bad else "%s:%s" % (b.file, b.line))
 
 
+def t13_avar(run, fx):
+    rule = "T13-AVAR"
+    run.rule(rule, "avar: SegmentMap::normalize is driven by the segment map alone - the input is compared only with from_coordinate values read "
+                   "from the table, never with a constant (the maps for -1, 0 and +1 are data: a font may map +1 to less than 1, so the end points "
+                   "go through the map like every other value)")
+    b = fx.body("tables::variable_fonts::avar::SegmentMap::<'_>::normalize")
+    if b is None:
+        return run.anchor_missing(rule, "avar::SegmentMap::normalize")
+    prov = sym.Prov(b)
+    bad = []
+    n = 0
+    for tb, fb_, call, sw in guards.bool_call_conditions(b, prov):
+        nm = (call[4] or call[1] or "")
+        if not nm.endswith(("PartialOrd::lt", "PartialOrd::le", "PartialOrd::gt", "PartialOrd::ge", "PartialEq::eq", "PartialEq::ne")):
+            continue
+        n += 1
+        for a in call[2]:
+            a = sym.strip(a)
+            while a[0] in ("ref", "deref"):
+                a = sym.strip(a[1])
+            consts = [x for x in sym.walk(a) if x[0] == "c"]
+            nonconst = [x for x in sym.walk(a) if x[0] in ("arg", "local", "field")]
+            if consts and not nonconst:
+                bad.append(sym.show(a)[:60])
+    for tb, fb_, op, x, y, sw in guards.branch_conditions(b, prov):
+        for z in (x, y):
+            zs = sym.strip(z)
+            if zs[0] == "c" and isinstance(zs[1], int) and not isinstance(zs[1], bool) and op in ("Lt", "Le", "Gt", "Ge"):
+                bad.append("%s %s" % (op, zs[1]))
+    if bad:
+        run.fail(rule, "avar-constant-compare", "SegmentMap::normalize compares the coordinate with the constant(s) %s: values at or beyond them bypass the "
+                 "segment map" % sorted(set(bad)), "%s:%s" % (b.file, b.line))
+    elif n:
+        run.ok(rule, "normalize: %d comparison(s), all against table data" % n)
+    else:
+        run.anchor_missing(rule, "comparisons in SegmentMap::normalize")
+
+
 def check(run, fx, tier, floors=True):
     if floors or fx.body("tables::variable_fonts::avar::SegmentMap::<'_>::normalize") is not None:
         t13_dom(run, fx)
+        t13_avar(run, fx)
     t13_len(run, fx)
     if floors or fx.body("tables::variable_fonts::fvar::default_normalize") is not None:
         t13_zero(run, fx)
